@@ -1143,6 +1143,7 @@ class TensorDict(TensorDictBase):
                 item._multithread_apply_flat(
                     fn,
                     *_others,
+                    default=default,
                     named=named,
                     nested_keys=nested_keys,
                     prefix=prefix + (key,),
